@@ -75,6 +75,7 @@ def run(fb, rep, tier):
     c4_undo(fb, rep)
     c5_serialize(fb, rep)
     c7_pairing(fb, rep)
+    c8_ep_square(fb, rep)
 
 
 # ----------------------------------------------------------------------------- .1
@@ -654,3 +655,17 @@ def c7_pairing(fb, rep):
                             (e.get('k') == 'call' and cname(e).endswith('::operator=') and ap(e.get('recv')) == what):
                         ok = True
         rep.ob(clause, 'K2 exceptional exit', '%s: the %s handler restores %s' % (f.sname, exc, what.replace('this.', '')), ok, f.where, '', f.sname)
+
+
+# ----------------------------------------------------------------------------- .8
+
+def c8_ep_square(fb, rep):
+    """K12/K4 (shared with C11.5 and C01.6): the stored en-passant square equals what can be recomputed from the
+    board only if makeMove records it exactly when an enemy pawn stands beside the double-stepped pawn: the mask
+    tables it consults hold, for each file, exactly the neighbouring squares on the right rank, and the
+    assignment is made only under that mask test."""
+    from . import C01, C11
+    clause = 'C02.8'
+    k = C01.ep_tables(fb, rep, clause)
+    rep.floor(clause, 'en-passant mask tables', k, 2)
+    C11.ep_guard(fb, rep, clause)
